@@ -14,12 +14,20 @@ import (
 // Hostile: keys and strings that need escaping.
 func Hostile(f func(sc.Case)) {
 	keys := []string{`a"b`, `a\b`, `a/b`, "a\nb", "é", "", " ", "a b", `"`, `\`, "@k", "a\tb", `\"`, "k\u0001"}
+	// every control character, DEL and the first characters behind the ASCII range, alone in a key
+	for c := 0; c <= 0x20; c++ {
+		keys = append(keys, "a"+string(rune(c))+"b")
+	}
+	keys = append(keys, "a\x7fb", "a\u0080b", "a\u2028b", "\U0001F600")
 	for _, k := range keys {
 		f(sc.Case{Root: gen.Obj(gen.P(k, gen.Int("1")))})
 		f(sc.Case{Root: gen.Obj(gen.P("x", gen.Int("1")), gen.P(k, gen.Str(gen.QuoteJSON(k))))})
 		f(sc.Case{Root: gen.Arr(gen.Obj(gen.P(k, gen.Obj(gen.P(k, gen.Null())))))})
 	}
 	strs := []string{`"a\"b"`, `"\\"`, `"\/"`, `"é"`, `"é"`, `"\n\t"`, `"\""`, `"\"\""`}
+	for c := 0; c <= 0x20; c++ {
+		strs = append(strs, gen.QuoteJSON("x"+string(rune(c))+"y"))
+	}
 	for _, s := range strs {
 		f(sc.Case{Root: gen.Str(s)})
 		f(sc.Case{Root: gen.Obj(gen.P("k", gen.Str(s)))})
